@@ -16,13 +16,19 @@ Fld(v, f) == IF v.t = "d" THEN DictField(v, f) ELSE NoneV
 Nq(v) == NumOf(v)
 
 \* one unit of the configured rounding plus quantisation slack
-Unit(rv) == IF rv < 0 \/ rv > 8 THEN Q(2, 1000000) ELSE Add(Q(1, Pow10(rv)), Q(2, 1000000))
+\* (beyond 5 decimals the unit of 10^-5 is used: finer ones do not fit 32-bit sums)
+Unit(rv) == IF rv < 0 THEN Q(2, 1000000)
+            ELSE IF rv > 5 THEN Q(12, 1000000)
+            ELSE Add(Q(1, Pow10(rv)), Q(2, 1000000))
 
 Known(a) == ~IsNaR(a)
 \* a <= b + k units  (true when an operand is unknown)
-LeU(a, b, rv, k) == (Known(a) /\ Known(b)) => Le(a, Add(b, Mul(R(k), Unit(rv))))
+LeU(a, b, rv, k) ==
+  LET hi == Add(b, Mul(R(k), Unit(rv)))
+  IN (Known(a) /\ Known(b) /\ Known(hi)) => Le(a, hi)
 EqU(a, b, rv, k) == LeU(a, b, rv, k) /\ LeU(b, a, rv, k)
-InRange(v, lo, hi, rv) == (v.t = "q") => (LeU(R(lo), Nq(v), rv, 1) /\ LeU(Nq(v), R(hi), rv, 1))
+InRangeK(v, lo, hi, rv, k) == (v.t = "q") => (LeU(R(lo), Nq(v), rv, k) /\ LeU(Nq(v), R(hi), rv, k))
+InRange(v, lo, hi, rv) == InRangeK(v, lo, hi, rv, 1)
 
 \* exemptions of the gap rule: exactly one of Supertrend's long/short is set (C10)
 GapExempt(c, f) == c.kind = "Supertrend" /\ f \in {"long", "short"}
@@ -51,8 +57,11 @@ Struct(c, cs, i) ==
   IN IF v.t = "n" THEN "ok"
      ELSE CASE k = "RSI" -> IF InRange(v, 0, 100, rv) THEN "ok" ELSE "struct_range"
        [] k = "STOCH" ->
-            IF InRange(Fld(v, "stoch"), 0, 100, rv) /\ InRange(Fld(v, "k"), 0, 100, rv)
-               /\ InRange(Fld(v, "d"), 0, 100, rv) THEN "ok" ELSE "struct_range"
+            \* %K and %D are incremental SMAs kept at the helpers' 4 decimals: the rounding
+            \* error they accumulate (half a unit per step) is allowed for
+            IF InRange(Fld(v, "stoch"), 0, 100, rv)
+               /\ InRangeK(Fld(v, "k"), 0, 100, MinI(rv, SubRv), 1 + i)
+               /\ InRangeK(Fld(v, "d"), 0, 100, MinI(rv, SubRv), 1 + i) THEN "ok" ELSE "struct_range"
        [] k = "AROON" ->
             IF ~(InRange(Fld(v, "AROONU"), 0, 100, rv) /\ InRange(Fld(v, "AROOND"), 0, 100, rv))
             THEN "struct_range"
@@ -97,9 +106,13 @@ Struct(c, cs, i) ==
                ELSE IF d.n = -1 /\ (sh.t # "q" \/ ~SameV(sh, tr)) THEN "struct_exclusive"
                ELSE "ok"
        [] k \in {"SMA", "WMA"} ->
-            IF v.t = "q" /\ i - c.p + 1 >= 1
-               /\ LeU(InMin(cs, c.in, i - c.p + 1, i), Nq(v), rv, 1)
-               /\ LeU(Nq(v), InMax(cs, c.in, i - c.p + 1, i), rv, 1) THEN "ok" ELSE "struct_between"
+            \* SMA is updated incrementally from its own ROUNDED previous value, so the error
+            \* the configured rounding introduces accumulates by up to half a unit per step
+            LET steps == IF k = "SMA" THEN i - FirstHas(cs, Ref(c.name), i) ELSE 0
+            IN IF v.t = "q" /\ i - c.p + 1 >= 1
+                  /\ LeU(InMin(cs, c.in, i - c.p + 1, i), Nq(v), rv, 1 + steps)
+                  /\ LeU(Nq(v), InMax(cs, c.in, i - c.p + 1, i), rv, 1 + steps)
+               THEN "ok" ELSE "struct_between"
        [] k = "VWMA" ->
             IF v.t = "q" /\ i - c.p + 1 >= 1
                /\ LeU(InMin(cs, Ref("close"), i - c.p + 1, i), Nq(v), rv, 1)
